@@ -14,7 +14,7 @@ let parse_hops a =
     | "NEW" ->
       let i = next_int a in
       (match next a with
-       | "F" -> HNEW (nat_of_int i, z_of_int 0, Z0)
+       | "F" | "P" -> HNEW (nat_of_int i, z_of_int 0, Z0)   (* P: the same listing pulled through iter.Pull2 over the push iterator (v3) *)
        | "B" -> HNEW (nat_of_int i, z_of_int 1, Z0)
        | "I1" -> HNEW (nat_of_int i, z_of_int 2, Z0)
        | "R1" -> HNEW (nat_of_int i, z_of_int 3, Z0)
